@@ -266,9 +266,15 @@ func runC06(p *core.Prog, r *core.Report) {
 		// inputs are hashed in slice order: the loop over module.Inputs is an ascending range
 		inputs := core.FieldOf(mt, "Inputs")
 		asc := false
-		for _, l := range core.LoopIndexing(fn, func(v ssa.Value) bool { f, _ := core.LoadedField(v); return f == inputs }) {
-			if d, _ := l.InductionDir(); d == 1 {
-				asc = true
+		// (in hashModule, or in the helper of its family that is handed module.Inputs)
+		for _, member := range core.Family(fn, 1) {
+			for _, l := range core.LoopIndexing(member, func(v ssa.Value) bool {
+				f, _ := core.LoadedField(core.CallerValue(fn, v))
+				return f == inputs
+			}) {
+				if d, _ := l.InductionDir(); d == 1 {
+					asc = true
+				}
 			}
 		}
 		r.Check(asc, "C06.R1", "hashModule/inputs-order", "inputs are hashed in their declared order", "loop over Module.Inputs is not an ascending range", p.Pos(fn.Pos()))
